@@ -754,7 +754,8 @@ impl<'a> World<'a> {
             Fate::deliver(self.rule_for(src, dst_ep).latency_us)
         };
         let mut fate = fate;
-        if let Some(mut adv) = self.adversary.take() {
+        // a middlebox that rewrites frames is a fault like any other: none after the heal
+        if let Some(mut adv) = if fair { None } else { self.adversary.take() } {
             if let Some(newbytes) = adv.rewrite(src, dst_ep, &bytes, &fate, self.plan) {
                 if let Some(c) = fate.copies.iter_mut().find(|c| c.flips.is_empty() && c.trunc.is_none() && c.replace.is_none()) {
                     c.replace = Some(newbytes);
